@@ -1029,7 +1029,7 @@ def run(ctx):
 
     ctx._own_rules = set(ctx.rule_min)
     info = C10._Info()
-    for r in (C10.rule_X1, C10.rule_X2, C10.rule_X3, C10.rule_X4, C10.rule_X5):
+    for r in (C10.rule_X1, C10.rule_X2, C10.rule_X3, C10.rule_X4, C10.rule_X5, C10.rule_X6):
         imported(ctx, r, info)
     # the cluster table the commands read from the trace is the one the run stored, under the key and on the chain
     # they look at (same rule object as C11.A5)
